@@ -204,6 +204,16 @@ func nativeRunOnce(cases []nativeCase, race bool) ([]nativeResult, string, error
 	if err != nil {
 		return nil, "", err
 	}
+	for _, c := range cases {
+		if _, ok := c.Inputs["__schedule"]; ok {
+			// a schedule is to be enforced: the package's locks are replaced, in overlaid copies of the current
+			// sources, by wrappers that take their turn (harness/zz_verif_prims.go)
+			if err := instrumentLocks(ov, wd); err != nil {
+				return nil, "", err
+			}
+			break
+		}
+	}
 	ovb, _ := json.Marshal(map[string]interface{}{"Replace": ov})
 	ovf := filepath.Join(wd, "overlay.json")
 	if err := os.WriteFile(ovf, ovb, 0644); err != nil {
@@ -236,6 +246,40 @@ func nativeRunOnce(cases []nativeCase, race bool) ([]nativeResult, string, error
 		return nil, string(out), err
 	}
 	return res, string(out), nil
+}
+
+// instrumentLocks adds to the overlay copies of /repo's non-test sources in which sync.RWMutex and sync.Mutex are
+// replaced by the harness wrappers verifRWMutex and verifMutex.
+func instrumentLocks(ov map[string]string, wd string) error {
+	files, err := filepath.Glob(filepath.Join(repoDir, "*.go"))
+	if err != nil {
+		return err
+	}
+	for _, f := range files {
+		if strings.HasSuffix(f, "_test.go") {
+			continue
+		}
+		if _, isHarness := ov[f]; isHarness {
+			continue
+		}
+		b, err := os.ReadFile(f)
+		if err != nil {
+			return err
+		}
+		src := string(b)
+		if !strings.Contains(src, "sync.RWMutex") && !strings.Contains(src, "sync.Mutex") {
+			continue
+		}
+		src = strings.ReplaceAll(src, "sync.RWMutex", "verifRWMutex")
+		src = strings.ReplaceAll(src, "sync.Mutex", "verifMutex")
+		src += "\n\nvar _ = sync.NewCond // keeps the import used\n"
+		out := filepath.Join(wd, "instr_"+filepath.Base(f))
+		if err := os.WriteFile(out, []byte(src), 0644); err != nil {
+			return err
+		}
+		ov[f] = out
+	}
+	return nil
 }
 
 // normalise JSON-ish values for comparison (numbers to float64).
